@@ -24,6 +24,22 @@ CLAIMED = {
             "PyBytesIO stands in for io.BytesIO; sha256d is a tagged identity in symbolic runs (real sha256d in replay); 64-bit fields are a "
             "16-bit symbolic window per byte offset; IPv6 addresses concrete; length prefixes > 3 octets only on the VLQ primitive.",
             "DESIGN.md 4/C07"),
+    "C11": ("CrossHair symbolic execution of MessageReceiver.receive; cut positions enumerated, stream contents symbolic",
+            "Solver verdict over all contents of streams <= 10 (quick) / 12 (thorough) bytes and of structured 2-3 frame streams under every "
+            "2- and 3-way cut: deliveries, refusal and residual state equal the unfragmented run and a reference parser; size-limit boundary.",
+            "Payload parsing is replaced by a recorder (C07/C20 cover it); longer streams and 4+-way cuts are outside (residual state is compared "
+            "after every prefix, which is what makes further cuts redundant).", "DESIGN.md 4/C11"),
+    "C04": ("CrossHair symbolic execution of CoinState.add_block_no_validation: inductive step with symbolic heights + all block trees <= 5/6 blocks",
+            "Inductive step from an abstract pre-state (heights symbolic over the whole encodable range) proves head/tips/index update rules; "
+            "every parent vector for <= 5 (quick) / 6 (thorough) blocks is compared with a reference after each arrival, including forks().",
+            "PyMap stands in for immutables.Map; ids are preset tokens; assumes stated height = parent's + 1 (C05) and the head-is-maximal invariant.",
+            "DESIGN.md 4/C04"),
+    "C01": ("CrossHair symbolic execution of CoinState.add_block on a directly constructed chain state with an adversarial symbolic spend",
+            "Solver verdict for every (reference-pool choice x free 32-bit index x 7 signature-object kinds x symbolic values) in blocks of "
+            "<= 2 transactions x <= 2 inputs x <= 2 outputs: accepted implies the stated conditions, rejected leaves the pre-state untouched; "
+            "validation reads only the parent's unspent map; equal signed messages imply equal references and outputs.",
+            "Ideal signatures (EUF-CMA), tagged-identity hashes, chain-sample oracle, PyMap/PyBytesIO; candidate placed exactly one above "
+            "the (patched) checkpoint horizon. Larger blocks are argued compositionally.", "DESIGN.md 4/C01"),
 }
 
 NOT_YET = "not claimed yet in this revision of /verif: the check is still being built (see DESIGN.md section 4 for the planned decision procedure)"
